@@ -642,14 +642,26 @@ pub fn delete(s: &S) -> DeleteStatement {
                 q.from_table(tref(&l[0]));
             }
             "andwhere" => {
-                q.and_where(expr(&l[0]));
+                if exprs::shash(c) % 2 == 0 {
+                    q.and_where(expr(&l[0]));
+                } else {
+                    q.and_where_option(Some(expr(&l[0])));
+                }
             }
             "condwhere" => {
                 q.cond_where(conds::cond(&l[0]));
             }
             "orderby" => {
+                let is_col = matches!(l[0].head(), "col" | "star" | "tstar");
+                let alt = exprs::shash(c) % 2 == 1 && is_col;
                 if l.len() > 2 {
-                    q.order_by_expr_with_nulls(expr(&l[0]), order(&l[1]), nulls(&l[2]));
+                    if alt {
+                        q.order_by_with_nulls(exprs::colref(&l[0]), order(&l[1]), nulls(&l[2]));
+                    } else {
+                        q.order_by_expr_with_nulls(expr(&l[0]), order(&l[1]), nulls(&l[2]));
+                    }
+                } else if alt {
+                    q.order_by(exprs::colref(&l[0]), order(&l[1]));
                 } else {
                     q.order_by_expr(expr(&l[0]), order(&l[1]));
                 }
